@@ -95,7 +95,12 @@ impl Script {
         if context.is_strict() {
             parser.set_strict();
         }
-        let scope = context.realm().scope().clone();
+        // The script is analysed against the scope of the realm it will run in.
+        let scope = realm
+            .as_ref()
+            .unwrap_or_else(|| context.realm())
+            .scope()
+            .clone();
         let (mut code, source) = parser.parse_script_with_source(&scope, context.interner_mut())?;
         if !context.optimizer_options().is_empty() {
             context.optimize_statement_list(code.statements_mut());
